@@ -28,6 +28,10 @@ func register(id string, f CheckFunc) {
 			r.Rule("CAUSE-TRANSPARENT", "no fmt.Errorf in the owned call trees takes an error value: errors.Cause, which every sentinel test uses, sees through github.com/pkg/errors wrappers only", 1)
 			checkCauseTransparent(p, r, "CAUSE-TRANSPARENT")
 		}
+		if ownsLockRelease(id) {
+			r.Rule("LOCK-RELEASE", "no function returns with a mutex of this property's structs that it took itself still held, unless a deferred unlock covers that return", 1)
+			checkLockRelease(p, r, "LOCK-RELEASE")
+		}
 		if ownsLockCover(id) {
 			r.Rule("LOCK-COVER", "every access to a mutable field of this property's structs holds the locks the reference tree holds at every access of that field in that function (lockcover.json, frozen with anchors.json): reads in any mode, writes exclusively; objects under construction excepted", 1)
 			checkLockCover(p, r, "LOCK-COVER")
